@@ -16,7 +16,8 @@ RULE = ("Hypothesis build programs (<= 8 items per circuit, nesting <= 2, 4 qubi
         "relation has the declared type and reference and every relation-less item follows one of the deepest earlier "
         "items sharing a channel (or nothing); (2) every reported start/end/duration equals the reference model's "
         "(plain recursion over the program, |d| <= 1e-9); (3) the same two checks on apply_modifiers() against the "
-        "unrolled model, with or without a listing before unrolling. Non-trivial = >= 3 operations and (an explicit "
+        "unrolled model, with or without a listing before unrolling; (4) the same unrolled objects are then re-read under a "
+        "second generated configuration (global override + registry values) and compared with the re-scheduled model. Non-trivial = >= 3 operations and (an explicit "
         "relation or an implicit placement with >= 2 admissible predecessors) and (nesting or a zero-length operation "
         "or a repetition); distinct = canonical JSON of (program, pre_list).")
 ASSUMPTIONS = [
@@ -31,9 +32,17 @@ def cfg():
                     max_total_leaves=60, p_dangling=8)
 
 
+def second_configuration():
+    """A second duration configuration applied to the SAME circuit objects after they were read once."""
+    from hypothesis import strategies as st
+    pos = st.sampled_from([0.25, 0.5, 1.0, 1.5, 2.0, 3.0, 7.0])
+    return st.none() | st.fixed_dictionaries({"g": st.lists(pos, min_size=4, max_size=4),
+                                              "dreg": st.fixed_dictionaries({"k0": st.sampled_from(P.DYADIC), "k1": st.sampled_from(P.DYADIC)})})
+
+
 def strat():
     from hypothesis import strategies as st
-    return st.fixed_dictionaries({"program": P.program_strategy(cfg()), "pre_list": st.booleans()})
+    return st.fixed_dictionaries({"program": P.program_strategy(cfg()), "pre_list": st.booleans(), "second": second_configuration()})
 
 
 def cfg_dense():
@@ -45,7 +54,8 @@ def cfg_dense():
 
 def strat_dense():
     from hypothesis import strategies as st
-    return st.fixed_dictionaries({"program": P.program_strategy(cfg_dense()), "pre_list": st.sampled_from([True, True, False])})
+    return st.fixed_dictionaries({"program": P.program_strategy(cfg_dense()), "pre_list": st.sampled_from([True, True, False]),
+                                  "second": second_configuration()})
 
 
 def compare_times(ctx, root: M.MCirc, mapping, what: str, facts):
@@ -72,6 +82,7 @@ def compare_times(ctx, root: M.MCirc, mapping, what: str, facts):
 
 def body(case, ctx):
     program, pre_list = case["program"], case["pre_list"]
+    case.setdefault("second", None)
     st = P.stats(program)
     g, dreg = program.get("g"), program.get("dreg", {})
     root = M.build(program)
@@ -80,7 +91,7 @@ def body(case, ctx):
                   and (st["nesting"] > 0 or st["n_zero"] > 0 or st["n_reps_gt1"] > 0))
     ctx.case(case, nontrivial=nontrivial, classes=[
         f"explicit={st['n_explicit'] > 0}", f"ties={bool(ties)}", f"nesting={st['nesting']}", f"zero={st['n_zero'] > 0}",
-        f"reps={st['n_reps_gt1'] > 0}", f"global={st['global']}", f"pre_list={pre_list}",
+        f"reps={st['n_reps_gt1'] > 0}", f"global={st['global']}", f"pre_list={pre_list}", f"reconfigured={bool(case.get('second'))}",
         f"rel_types={''.join(st['rel_types'])}"])
     facts = {"kinds": st["kinds"], "reps": st["n_reps_gt1"] > 0, "nesting": st["nesting"], "pre_list": pre_list}
     root = M.build(program)         # fresh: implicit relations are fixed by the correspondence below
@@ -130,6 +141,20 @@ def body(case, ctx):
             ctx.note("match-budget-exhausted-unrolled")
         if mapping2 is not None and not info["ambiguous"]:
             compare_times(ctx, um, mapping2, "unrolled", facts)
+        # the same objects under a second configuration (all duration assignments, not only the one they were built under)
+        second = case.get("second")
+        if second and mapping2 is not None:
+            dreg2 = dict(dreg)
+            with ctx.lib("change registry durations"):
+                for k in sorted(dreg):
+                    target.duration_registry.set_registry_at(k, second["dreg"].get(k, dreg[k]))
+                    dreg2[k] = second["dreg"].get(k, dreg[k])
+            with P.global_override(second["g"]):
+                um2, info2 = M.unroll(root, second["g"], dreg2)
+                # same structure, new durations: re-schedule the matched model tree in place
+                M.schedule(um, second["g"], dreg2)
+                if not info2["ambiguous"] and not info["ambiguous"]:
+                    compare_times(ctx, um, mapping2, "reconfigured", dict(facts, second=True))
 
 
 def parts():
